@@ -215,6 +215,15 @@ func C10(r *vf.Run) {
 			}
 			p := g.Bytes(n)
 			how := g.Intn(5)
+			if n > 0 && cur+n <= len(rom.Contents) && g.Intn(5) == 0 {
+				// writing back what is already there (an unchanged block, a re-applied patch), or that with
+				// one byte changed: what the image held must not matter to where the next write goes
+				p = append([]byte(nil), rom.Contents[cur:cur+n]...)
+				if g.Bool() {
+					p[g.Intn(n)] ^= 0x40
+				}
+				cells["write:payload-equals-image"]++
+			}
 			if n > 0 && n < 4000 && g.Intn(6) == 0 && how < 3 {
 				// the source is itself a view of the image that overlaps the destination
 				// (moving a table inside the ROM): the bytes stored must be p's bytes at call time
